@@ -3,22 +3,23 @@
 # given after the name in seeded/EXTRA), writes seeded/RESULTS.md
 # usage: tools/run_seeded.sh            all seeded changes, rewrites RESULTS.md
 #        tools/run_seeded.sh C03_A2 …  only these, appended to RESULTS.md
-OUT=/verif/seeded/RESULTS.md
+V=$(cd "$(dirname "$0")/.." && pwd)
+OUT=$V/seeded/RESULTS.md
 if [ $# -eq 0 ]; then
   echo "# Seeded changes vs checks (tools/run_seeded.sh, scratch copies of /repo)" > $OUT
   echo "" >> $OUT
   echo "| seeded change | property | title | checks run -> result |" >> $OUT
   echo "|---|---|---|---|" >> $OUT
-  set -- $(cd /verif/seeded && ls -d C*_*)
+  set -- $(cd $V/seeded && ls -d C*_*/ | tr -d /)
 fi
-for N in "$@"; do D=/verif/seeded/$N
+for N in "$@"; do D=$V/seeded/$N
   P=${N%_*}
-  EXTRA=$(grep "^$N " /verif/seeded/EXTRA 2>/dev/null | cut -d' ' -f2-)
+  EXTRA=$(grep "^$N " $V/seeded/EXTRA 2>/dev/null | cut -d' ' -f2-)
   T=$(python3 -c "import json;print(json.load(open('$D/meta.json')).get('title','')[:110].replace('|','/'))")
   RES=""
   for c in $P $EXTRA; do
-    [ -f /verif/harness/$(echo $c | tr 'A-Z' 'a-z').py ] || { RES="$RES $c:no-check"; continue; }
-    L=$(/verif/tools/try_mutant.sh $N $c 2>&1 | grep "VIOLATION")
+    [ -f $V/harness/$(echo $c | tr 'A-Z' 'a-z').py ] || { RES="$RES $c:no-check"; continue; }
+    L=$($V/tools/try_mutant.sh $N $c 2>&1 | grep "VIOLATION")
     if [ -z "$L" ]; then RES="$RES $c:missed";
     elif echo "$L" | grep -qv no-failing-input-found; then RES="$RES $c:CAUGHT(input)";
     else RES="$RES $c:CAUGHT(no-failing-input-found)"; fi
